@@ -1,7 +1,8 @@
 (* C04 — Versions and replication frontiers only move forward. *)
 From Coq Require Import Lia.
 From ChitchatModel Require Import Base SMap Ids Bytes Params NodeState Stream DeltaWire Message
-  Cluster FD Chitchat SMap_lemmas NodeState_lemmas Builder_lemmas Cluster_lemmas Chitchat_lemmas Inv.
+  Cluster FD Chitchat World SMap_lemmas NodeState_lemmas Builder_lemmas Cluster_lemmas Chitchat_lemmas Inv
+  Truth NodeTruth Weak Reach Progress Potential ReachMono.
 
 (* For EVERY copy and EVERY node delta whose key-value versions do not exceed its max_version
    (all that the decoder's grammar lets through: C04_decoder_output_bounded), honest or not:
@@ -119,3 +120,19 @@ Proof.
     + intros k v [E|[]]. injection E as <- <-. cbn. lia.
   - intros m [<-|[]]. cbn. lia.
 Qed.
+
+(* Over every step of the global relation (C02's step relation: any node's local writes, GC,
+   heartbeats, clock, liveness evaluation, joins, SYN creation, delivery of any message ever sent to
+   any node — duplicated, stale, concurrent), from every reachable state, with or without the
+   KF-1 exclusion: every copy of every node is still there afterwards with a lexicographically
+   larger-or-equal (GC watermark, max version); the only step that can make a copy disappear is a
+   liveness evaluation removing the member. *)
+Theorem C04_frontiers_monotone_along_steps : forall zc,
+  (forall b c, zc b = Some c -> len c <= len b) -> forall strict g g',
+  reachable zc strict g -> gstep zc strict g g' ->
+  forall a n, node_at g a = Some n ->
+    exists n', node_at g' a = Some n' /\ kept_or_removed n n' /\
+      ((forall b nb oracle, g' <> mkG (with_nodes (g_w g) (set_nth (w_nodes (g_w g)) b (update_nodes_liveness (w_now (g_w g)) nb oracle))) (g_sent g) (g_T g)) ->
+       node_le n n').
+Proof. exact frontiers_monotone_along_steps. Qed.
+Print Assumptions C04_frontiers_monotone_along_steps.
